@@ -384,4 +384,27 @@ pub fn run(ctx: &mut Ctx) {
         word_case(ctx, &base, Cell::Real(1.5), "f64!", &format!("{} float", n), off, None);
         word_case(ctx, &base, Cell::Int(5), "16 uint!", "32 uint", off, Some("err ReadError:16:32".into()));
     }
+    // the words that name their byte order (`u16le!`, `i64be`, `f32le!` …) mean that order whatever order is currently
+    // selected — every width, both namings, under both selections, packing under one and reading under the other
+    for w in [8usize, 16, 32, 64] {
+        for signed in [false, true] {
+            for sfx in ["le", "be"] {
+                for (mode_pack, mode_read) in [("big", "big"), ("little", "little"), ("big", "little"), ("little", "big")] {
+                    let k = if signed { "i" } else { "u" };
+                    let val: i128 = if signed { -2 - (w as i128) } else { (0x0102030405060708u64 as u128 & ((1u128 << (w - 1)) - 1)) as i128 };
+                    let expect = Some(format!("ok i{}", val));
+                    word_case(ctx, &base, Cell::Int(val), &format!("{} {}{}{}!", mode_pack, k, w, sfx), &format!("{} {}{}{}", mode_read, k, w, sfx), (w / 8) % 8, expect);
+                    ctx.tag("word:explicit-order-under-both-selections");
+                }
+            }
+        }
+    }
+    for (w, x) in [(32usize, 1.5f64), (64, -2.25)] {
+        for sfx in ["le", "be"] {
+            for (mode_pack, mode_read) in [("big", "little"), ("little", "big"), ("big", "big")] {
+                word_case(ctx, &base, Cell::Real(x), &format!("{} f{}{}!", mode_pack, w, sfx), &format!("{} f{}{}", mode_read, w, sfx), 3, Some(format!("ok {}", show_real(x))));
+                ctx.tag("word:explicit-order-under-both-selections");
+            }
+        }
+    }
 }
